@@ -9,6 +9,7 @@ mod c11;
 mod c12;
 mod c14;
 mod c15;
+mod c16;
 mod c17;
 mod c18;
 pub mod xsched;
